@@ -479,6 +479,12 @@ def get_scripts(ctx):
                           "get pointidx 0 %s" % X_(last), "get pointn 0 %s" % X_(last), "get pointidx 0 %s" % X_(pn[0]),
                           "smut 0 ptname %d %s" % (np_ - 1, X_(b"moved")), "get pointidx 0 %s" % X_(last), "get pointidx 0 %s" % X_(b"moved"),
                           "smut 0 ptname 0 %s" % X_(b"gone"), "get pointidx 0 %s" % X_(last), "get pointn 0 %s" % X_(last)]
+                    # ... and renames THROUGH THE BY-NAME HANDLE (`point_nonConst(name).name(new)`) between by-name look-ups of both names
+                    a = pn[1] if np_ > 2 else b"moved"
+                    L += ["get pointidx 0 %s" % X_(a), "get pointn 0 %s" % X_(a), "smut 0 ptnname %s %s" % (X_(a), X_(b"byname")),
+                          "get pointidx 0 %s" % X_(a), "get pointn 0 %s" % X_(a), "get pointidx 0 %s" % X_(b"byname"), "get pointn 0 %s" % X_(b"byname"),
+                          "smut 0 ptnname %s %s" % (X_(b"byname"), X_(b"gone")), "get pointidx 0 %s" % X_(b"gone"), "get pointidx 0 %s" % X_(b"byname"),
+                          "smut 0 ptnname %s %s" % (X_(b"nosuch"), X_(b"x"))]
                 if nf and nc >= 2:
                     X_ = gen.xhex
                     last = cn[nc - 1]
@@ -486,6 +492,10 @@ def get_scripts(ctx):
                           "get chanidx 0 1 %s" % X_(last), "get chann 0 1 %s" % X_(last), "get chanidx 0 0 %s" % X_(last),
                           "smut 0 chname 1 %d %s" % (nc - 1, X_(b"moved")), "get chanidx 0 1 %s" % X_(last), "smut 0 chname 1 0 %s" % X_(b"gone"),
                           "get chanidx 0 1 %s" % X_(last), "get chann 0 1 %s" % X_(last)]
+                    a = cn[1] if nc > 2 else b"moved"
+                    L += ["get chanidx 0 1 %s" % X_(a), "smut 0 chnname 1 %s %s" % (X_(a), X_(b"byname")), "get chanidx 0 1 %s" % X_(a), "get chann 0 1 %s" % X_(a),
+                          "get chanidx 0 1 %s" % X_(b"byname"), "get chann 0 1 %s" % X_(b"byname"), "smut 0 chnname 1 %s %s" % (X_(b"byname"), X_(b"gone")),
+                          "get chanidx 0 1 %s" % X_(b"gone"), "get chanidx 0 1 %s" % X_(b"byname")]
                 for i in idxs(4): L.append("get group %d" % i)
                 for key in [b"POINT", b"point", b"GRP", b"GRP ", b"ANALOG", b"none"]:
                     L.append("get groupn %s" % gen.xhex(key)); L.append("get groupidx %s" % gen.xhex(key))
@@ -1582,6 +1592,20 @@ def c19(ctx):
         for L_, st_, tag_ in corpus_scripts(pid_):
             L_ = [l for l in L_ if l.split(" ")[0] not in ("specdecode", "lwcheck", "savex", "savefault", "sep")]     # ops only one side answers
             jobs.append((L_, "corpus-%s-%s" % (pid_, tag_), None))
+    # Parameter::set over the shape grid (every build must accept / refuse the same shapes: empty shapes whose partial products
+    # pass INT_MAX before the 0 are where an overflow test is folded away by the optimiser), and frames / declarations on objects
+    # whose LABELS parameter was retyped (a missing table must be refused by every build)
+    for L_, st_, tag_ in pset_scripts(ctx)[:1]:
+        jobs.append((L_, "pset-grid", None))
+    Xh = gen.xhex
+    for k, shape in enumerate(["255,255,255,255,0", "255,255,255,255,255,0", "128,255,255,255,0,3", "255,255,255,129,0", "0,255,255,255,255", "255,255,255,255,1,0"]):
+        jobs.append((["new", "pnew", "pset I %s -" % shape, "pset F %s -" % shape, "pset C %s -" % shape, "param x4747 x51 x 0 I %s -" % shape, "save @W@/e.c3d", "load @W@/e.c3d"], "empty-shape-%d" % k, None))
+    for grp, oth in ((b"POINT", b"ANALOG"), (b"ANALOG", b"POINT")):
+        pre = ["new", "dumpmode full", "param x504f494e54 x52415445 x 0 F - 42c80000", "param x414e414c4f47 x52415445 x 0 F - 42c80000"]
+        body = ["param %s %s x 0 I - 1,2" % (Xh(grp), Xh(b"LABELS")), "mkframe v x41:3f800000:40000000:40400000:00000000 x43:3f800000", "frame v", "dump", "point x42", "dump", "analog x44", "dump",
+                "mkframe w - x43:3f800000", "frame w", "dump", "save @W@/r.c3d"]
+        jobs.append((pre + body, "retyped-labels-" + grp.decode(), None))
+        jobs.append((pre + ["point x41", "analog x43"] + body, "retyped-labels-declared-" + grp.decode(), None))
     for i in range(n // 2):
         jobs.append((["dumpmode full", "load @W@/in.c3d", "save @W@/o.c3d", "load @W@/o.c3d", "save @W@/o2.c3d"], "file-%d" % i, ctx.seed * 53 + i))
     # files whose reserved header words are not zero: they pass through the multi-byte integer reader (270 and 44 bytes at a time)
